@@ -318,7 +318,9 @@ fn process_event(
 		.try_send(ev, Priority::Normal)
 		.map_err(|err| {
 			#[cfg(watchexec_verif)]
-			watchexec_supervisor::verif::emit("fs_event_lost", verif_id, 0);
+			if verif_id != 0 {
+				watchexec_supervisor::verif::emit("fs_event_lost", verif_id, 0);
+			}
 			RuntimeError::EventChannelTrySend {
 				ctx: "fs watcher",
 				err,
